@@ -34,6 +34,7 @@ WORK = os.path.join(ROOT, ".work")
 BIN = os.path.join(WORK, "bin")
 DRIVER = os.path.join(LEAN, ".lake", "build", "bin", "driver")
 CORR = os.path.join(BIN, "corr")
+REPO = os.environ.get("VERIF_REPO", "/repo")   # always /repo for registered checks; a snapshot only for background sweeps
 ALLOWED_AXIOMS = {"propext", "Classical.choice", "Quot.sound"}
 FORBIDDEN = re.compile(r"\b(sorry|admit|native_decide|bv_decide|implemented_by|unsafe)\b|^\s*axiom\s|maxHeartbeats\s+0\b")
 
@@ -92,8 +93,18 @@ def build_harness(tags="verif", outname="corr", race=False):
     os.makedirs(BIN, exist_ok=True)
     with Lock("go"):
         # go.sum of the harness must cover /repo's dependencies
-        shutil.copyfile("/repo/go.sum", os.path.join(GO, "go.sum"))
-        cmd = ["go", "build"] + (["-race"] if race else []) + ["-tags", tags, "-o", os.path.join(BIN, outname), "./cmd/corr"]
+        shutil.copyfile(os.path.join(REPO, "go.sum"), os.path.join(GO, "go.sum"))
+        if REPO != "/repo":
+            # a background sweep on a snapshot of the repository (vp run --with-repo): same harness,
+            # the replace directive points at the snapshot; -modfile keeps the committed go.mod untouched
+            alt = os.path.join(WORK, "go.alt.mod")
+            txt = open(os.path.join(GO, "go.mod")).read().replace("=> /repo", "=> " + REPO)
+            open(alt, "w").write(txt)
+            shutil.copyfile(os.path.join(REPO, "go.sum"), os.path.join(WORK, "go.alt.sum"))
+            cmd = ["go", "build", "-modfile", alt]
+        else:
+            cmd = ["go", "build"]
+        cmd = cmd + (["-race"] if race else []) + ["-tags", tags, "-o", os.path.join(BIN, outname), "./cmd/corr"]
         rc, out = run(cmd, cwd=GO, env=goenv())
     return rc, out
 
